@@ -392,6 +392,7 @@ func TestC08(t *testing.T) {
 			}
 			var fixErr error
 			var rt *routerNode
+			seenIn, baseA, baseB := 0, 0, 0
 			edit := func(n *gomavlib.Node, fr frame.Frame) {
 				switch mode {
 				case "edit-message":
@@ -415,10 +416,11 @@ func TestC08(t *testing.T) {
 				case "forward-then-edit":
 					// forward the frame as received first (this encodes it in place), wait until every channel
 					// writer has put it on the wire (the frame object is shared with them), then re-stamp and fix
-					na, nb := rt.a.NWrites(), rt.b.NWrites()
+					// (absolute counts: A gets one write per input, B two - the previous input's fixed frame may still be in flight)
 					_ = n.WriteFrameExcept(nil, fr)
-					rt.a.WaitWrites(na+1, 3*time.Second)
-					rt.b.WaitWrites(nb+1, 3*time.Second)
+					rt.a.WaitWrites(baseA+seenIn+1, 3*time.Second)
+					rt.b.WaitWrites(baseB+2*seenIn+1, 3*time.Second)
+					seenIn++
 					switch ff := fr.(type) {
 					case *frame.V1Frame:
 						ff.ComponentID ^= 0x33
